@@ -932,6 +932,9 @@ func runC07(o *Out) {
 			o.count("dest_is_inner_field", 1)
 		}
 		var res string
+		if n%8 == 0 || o.tier == "thorough" {
+			o.current(c07Describe(c))
+		}
 		func() {
 			defer func() {
 				if r := recover(); r != nil {
